@@ -726,3 +726,19 @@ impl Client {
         }
     }
 }
+
+#[cfg(uflow_verif)]
+impl Client {
+    /// State summary for the verification harness.
+    pub fn verif_dump(&self) -> String {
+        match self.state {
+            State::Pending(ref p) => format!("P{}:{}:{}:{}", p.local_nonce, p.resend_time_ms, p.resend_count, p.initial_sends.len()),
+            State::Active(ref a) => format!("A{}:{}:{}:[{}]", a.local_nonce, a.timeout_time_ms,
+                match a.disconnect_signal { None => "-", Some(DisconnectMode::Now) => "N", Some(DisconnectMode::Flush) => "F" },
+                a.half_connection.verif_dump()),
+            State::Closing(ref c) => format!("C{}:{}", c.resend_time_ms, c.resend_count),
+            State::Closed(ref c) => format!("D{}", c.timeout_time_ms),
+            State::Fin => "F".to_string(),
+        }
+    }
+}
